@@ -60,8 +60,25 @@ def main(argv):
                 for rep in range(30 if ctx.thorough else 6):
                     S = Scripted(rng)
                     hc = HashClient(servers, socket_module=S.sm, key_prefix=pfx, use_pooling=pooling, default_noreply=False, retry_attempts=0, dead_timeout=0)
+                    if rep % 3 == 1:
+                        # an attempt to add a server that cannot be built (a malformed address: whatever this tree refuses) fails and leaves the server set as it was
+                        for bad_spec in ("10.0.0.9:", "cache.example:port", ["h:", "h9:11x"][(rep // 3) % 2]):
+                            try:
+                                HashClient([], socket_module=S.sm).add_server(bad_spec)
+                                continue            # this tree accepts the spelling: not a failing add
+                            except Exception:
+                                pass
+                            try:
+                                hc.add_server(bad_spec)
+                            except Exception:
+                                pass
                     names = sorted(hc.clients.keys())
                     S.begin_call(0, {})
+                    try:
+                        hc.get(("", "probe"))
+                        empty_route_ok = True
+                    except Exception:
+                        empty_route_ok = False      # a tree that rejects the empty routing key: no claim about such pairs
                     n = [0, 1, 2, 7, 20, 50][rep % 6]        # every size for every configuration
                     keys = []
                     for i in range(n):
@@ -77,6 +94,9 @@ def main(argv):
                     if n >= 2:
                         # short plain keys: a two-character key is a key, not a (server_key, key) pair
                         keys += ["ab", b"cd", "x" + "abcdefgh"[rep % 8], b"q", "zz%d" % (rep % 10)][: 2 + rep % 4]
+                    if n >= 2 and empty_route_ok and rep % 2 == 0:
+                        # pairs whose explicit server key is empty: they all live on one server, whatever their inner keys are
+                        keys += [("", "ea%d" % rep), ("", "eb%d" % rep), ("", "ec"), ("", "key0x")]
                     if n >= 2 and rng.random() < .7:
                         # the same inner key under several routings, and also as a plain key
                         base_k = "shared%d" % rep
